@@ -226,6 +226,7 @@ package db
 //@   ghost-exit hdr_valid = err == nil
 //@   ghost-exit hdr_ps = r0.PageSize
 //@   ghost-exit hdr_cookie = r0.SchemaCookie
+//@   ensures [ghost] hdr_ps == r0.PageSize && hdr_cookie == r0.SchemaCookie
 //@   ensures [valid] hdr_valid <==> err == nil
 //@   ensures [sound] err == nil ==> hdr_ok(mem(b), off(b), len(b))
 //@   ensures [complete] hdr_ok(mem(b), off(b), len(b)) ==> err == nil
